@@ -133,6 +133,10 @@ def run(ctx):
             ops = [api] * (len(frames) + 1)
             sessions.append(({"fire": fire} if fire else {}, [("chunk", stream)], ops))
             meta.append((kind, frames, api + (":fire" if fire else "")))
+            if kind == "close-code" and api in ("rf", "rdf:1"):
+                # switching UTF-8 validation off must not switch the judgement of the STATUS CODE off
+                sessions.append(({"skip": 1}, [("chunk", stream)], ops))
+                meta.append((kind, frames, api + ":skip-utf8"))
     res = rx.run_sessions(ctx, "session:validate", sessions)
     legal_lines, idx = [], []
     for kind, frames in sts:
